@@ -1,19 +1,25 @@
 /-
   C08 — undoing a cached proof yields a canonical proof for the previous state.
 
+  THIS FILE IS ABOUT THE CODE BEFORE THE REPAIR OF `Proof.undoAdd` (model `proofUndoOld` =
+  `proofUndoAddOld` then `proofUndoDel`): the full statement is false of it (two witnesses) and true
+  outside the two defect classes.  The repaired code (`proofUndo`) is proved in full in
+  `Props/C08b.lean` (`C08b.C08`), which reuses `expectedUndo`, `proofUndoDel_canonical`, the
+  `undone_*` corollaries and the history lemmas of this file.
+
   "After a cached proof has been updated for a block and is then undone with that block's data, it
   is a canonical, verifying proof against the pre-block verifier state for exactly those of its
   leaves that already existed before the block.  It never contains a leaf the undone block added,
   never invents a leaf, and - apart from leaves the block itself deleted, which are documented as
   not restored - never loses a leaf that is live both before and after the block."
 
-  Model: `Model/ProofUpdate.lean` (`proofUndo` = `proofUndoAdd` then `proofUndoDel`,
+  Model: `Model/ProofUpdate.lean` (`proofUndoOld` = `proofUndoAddOld` then `proofUndoDel`,
   transliterated from /repo/prove.go `Proof.Undo`).  Specification: `Spec.Forest.canon`.
 
   * `C08_statement` — the full statement: for every valid block on `F` (deleting `D`, adding
     `adds`; `G = F.modify D adds`), every duplicate-free list `C'` of live leaves of `G` with its
     canonical proof, and the update data `ud` that `Stump.Update` returns for the block,
-    `proofUndo (canon G C') (block data, ud.ToDestroy)` returns, without error, the canonical proof
+    `proofUndoOld (canon G C') (block data, ud.ToDestroy)` returns, without error, the canonical proof
     in `F` of a permutation `K` of `C' \ adds` (targets ascending) and `K` as the cached hashes.
   * `C08_fails_emptyRootsOverwritten`, `C08_fails_toEmpty` — the full statement is FALSE of the
     code as it is: the two recorded defect classes (`known_findings.jsonl`,
@@ -24,7 +30,7 @@
     `undone_keeps_live_leaves` — the clauses of the property text, as corollaries.
 
   Levels (helper lemmas in `Proofs/`):
-  1. `Proofs/ProofUndoAdd.lean` — `proofUndoAdd_canonical`: `proofUndoAdd` is the inverse of the
+  1. `Proofs/ProofUndoAdd.lean` — `proofUndoAdd_canonical`: `proofUndoAddOld` is the inverse of the
      addition step (old nodes keep their (row, offset) position; `pruneEdges` keeps exactly the
      positions that exist in the previous forest; re-encoding for the previous number of rows;
      the needed proof hashes are a subset of the old ones).
@@ -77,7 +83,7 @@ def C08_statement : Prop :=
     (C01b.stumpOf F).update nonZero D adds (C01.encTargets F.rows tgD) hsD = .ok (s', ud) →
     ∃ K tg hs, K.Perm (expectedUndo C' adds) ∧ F.canon K = some (tg, hs) ∧
       tg.Pairwise Sorted.PLt ∧
-      proofUndo ⟨tgG.map (E (F.modify D adds).rows), hsG⟩ (BitVec.ofNat 64 adds.length)
+      proofUndoOld ⟨tgG.map (E (F.modify D adds).rows), hsG⟩ (BitVec.ofNat 64 adds.length)
           (BitVec.ofNat 64 (F.modify D adds).numLeaves) (C01.encTargets F.rows tgD) D C'
           ud.toDestroy (C01.encTargets F.rows tgD) hsD =
         .ok (⟨tg.map (E F.rows), hs⟩, K)
@@ -97,7 +103,7 @@ def C08_partial_statement : Prop :=
     ud.toDestroy = [] → F.numLeaves ≠ 0 →
     ∃ K tg hs, K.Perm (expectedUndo C' adds) ∧ F.canon K = some (tg, hs) ∧
       tg.Pairwise Sorted.PLt ∧
-      proofUndo ⟨tgG.map (E (F.modify D adds).rows), hsG⟩ (BitVec.ofNat 64 adds.length)
+      proofUndoOld ⟨tgG.map (E (F.modify D adds).rows), hsG⟩ (BitVec.ofNat 64 adds.length)
           (BitVec.ofNat 64 (F.modify D adds).numLeaves) (C01.encTargets F.rows tgD) D C'
           ud.toDestroy (C01.encTargets F.rows tgD) hsD =
         .ok (⟨tg.map (E F.rows), hs⟩, K)
@@ -106,7 +112,7 @@ end statement
 
 /-! ### Levels 1 and 2 -/
 
-/-- **Level 1: `proofUndoAdd` is the inverse of the addition step** when no empty root is
+/-- **Level 1: `proofUndoAddOld` is the inverse of the addition step** when no empty root is
 destroyed and the forest before the additions is not empty (see `Proofs/ProofUndoAdd.lean`) -/
 theorem proofUndoAdd_canonical {F : Forest H} {adds : List H} (cr : CR H)
     (hN : F.numLeaves + adds.length ≤ 2 ^ 63)
@@ -117,7 +123,7 @@ theorem proofUndoAdd_canonical {F : Forest H} {adds : List H} (cr : CR H)
     (hcG : (F.addMany adds).canon C' = some (tgG, hsG)) :
     ∃ K tgK hsK, K.Perm (expectedUndo C' adds) ∧
       F.canon K = some (tgK, hsK) ∧ tgK.Pairwise Sorted.PLt ∧
-      proofUndoAdd ⟨tgG.map (E (F.addMany adds).rows), hsG⟩ (BitVec.ofNat 64 adds.length)
+      proofUndoAddOld ⟨tgG.map (E (F.addMany adds).rows), hsG⟩ (BitVec.ofNat 64 adds.length)
           (BitVec.ofNat 64 (F.addMany adds).numLeaves) C' [] =
         .ok (⟨tgK.map (E F.rows), hsK⟩, K) :=
   ProofUndoAdd.proofUndoAdd_canonical cr hN hndG hleaf hL hn0 hC' hcG
@@ -150,7 +156,7 @@ theorem proofUndo_canonical_partial (cr : CR H) (F : Forest H) (C' D adds : List
     (hL : DestroySpec (F.delLeaves D).slots adds.length []) (hn0 : F.numLeaves ≠ 0) :
     ∃ K tg hs, K.Perm (expectedUndo C' adds) ∧ F.canon K = some (tg, hs) ∧
       tg.Pairwise Sorted.PLt ∧
-      proofUndo ⟨tgG.map (E (F.modify D adds).rows), hsG⟩ (BitVec.ofNat 64 adds.length)
+      proofUndoOld ⟨tgG.map (E (F.modify D adds).rows), hsG⟩ (BitVec.ofNat 64 adds.length)
           (BitVec.ofNat 64 (F.modify D adds).numLeaves) (tgD.map (E F.rows)) D C' []
           (tgD.map (E F.rows)) hsD =
         .ok (⟨tg.map (E F.rows), hs⟩, K) := by
@@ -171,8 +177,8 @@ theorem proofUndo_canonical_partial (cr : CR H) (F : Forest H) (C' D adds : List
   have hsub : BitVec.ofNat 64 (F.modify D adds).numLeaves - BitVec.ofNat 64 adds.length =
       BitVec.ofNat 64 F.numLeaves := by
     rw [hnumG, BitVec.ofNat_add, BitVec.add_sub_cancel]
-  unfold proofUndo
-  have hua' : proofUndoAdd ⟨tgG.map (E (F.modify D adds).rows), hsG⟩ (BitVec.ofNat 64 adds.length)
+  unfold proofUndoOld
+  have hua' : proofUndoAddOld ⟨tgG.map (E (F.modify D adds).rows), hsG⟩ (BitVec.ofNat 64 adds.length)
       (BitVec.ofNat 64 (F.modify D adds).numLeaves) C' [] =
       .ok (⟨tgK1.map (E F.rows), hsK1⟩, K1) := by
     rw [← hrows]; exact hua
@@ -292,7 +298,7 @@ theorem update_then_undo_partial (cr : CR H) (nonZero : H) (hnz : nonZero ≠ (z
       (ud.toDestroy = [] →
         ∃ K tg hs, K.Perm (C.filter (fun x => decide (x ∉ D))) ∧ F.canon K = some (tg, hs) ∧
           tg.Pairwise Sorted.PLt ∧
-          proofUndo p' (BitVec.ofNat 64 adds.length) (BitVec.ofNat 64 (F.modify D adds).numLeaves)
+          proofUndoOld p' (BitVec.ofNat 64 adds.length) (BitVec.ofNat 64 (F.modify D adds).numLeaves)
               (C01.encTargets F.rows tgD) D C' ud.toDestroy (C01.encTargets F.rows tgD) hsD =
             .ok (⟨tg.map (E F.rows), hs⟩, K)) := by
   obtain ⟨ud, C', tg', hs', h1, h2, h3, h4, h5⟩ := C07.proofUpdate_with_stump cr nonZero hnz F C D
@@ -446,7 +452,7 @@ theorem client_history_undo_last_partial (cr : CR H) (nonZero : H) (hnz : nonZer
         ∃ K tg hs, K.Perm ((C07.expectedRun [] pre).filter (fun x => decide (x ∉ d))) ∧
           (run Forest.empty (pre.map C07.toBlock)).canon K = some (tg, hs) ∧
           tg.Pairwise Sorted.PLt ∧
-          proofUndo p' (BitVec.ofNat 64 a.length)
+          proofUndoOld p' (BitVec.ofNat 64 a.length)
               (BitVec.ofNat 64 (run Forest.empty ((pre ++ [(d, a, r)]).map C07.toBlock)).numLeaves)
               (C01.encTargets (run Forest.empty (pre.map C07.toBlock)).rows tgD) d C' ud.toDestroy
               (C01.encTargets (run Forest.empty (pre.map C07.toBlock)).rows tgD) hsD =
@@ -568,7 +574,7 @@ theorem fails_emptyRootsOverwritten : ¬ C08_statement T := by
     adds34 (by decide) (fun x hx hx' => absurd hx' (adds34_new x hx)) (by decide) hcD (by decide)
     hcG hupd
   rw [htd] at hrun
-  have hval : proofUndo (H := T)
+  have hval : proofUndoOld (H := T)
       ⟨[((1, 0) : Pos)].map (E (Fw.modify [T.leaf 2] [T.leaf 3, .leaf 4]).rows), [T.leaf 3]⟩
       (BitVec.ofNat 64 [T.leaf 3, T.leaf 4].length)
       (BitVec.ofNat 64 (Fw.modify [T.leaf 2] [T.leaf 3, .leaf 4]).numLeaves)
@@ -610,7 +616,7 @@ theorem fails_toEmpty : ¬ C08_statement T := by
     (fun x hx => by cases hx) hadd (by decide) (fun x _ hx => by cases hx) (by decide) hcD
     (by decide) hcG hupd
   rw [htd] at hrun
-  have hval : proofUndo (H := T)
+  have hval : proofUndoOld (H := T)
       ⟨[((0, 0) : Pos)].map (E ((Forest.empty : Forest T).modify [] [T.leaf 1]).rows), []⟩
       (BitVec.ofNat 64 [T.leaf 1].length)
       (BitVec.ofNat 64 ((Forest.empty : Forest T).modify [] [T.leaf 1]).numLeaves)
@@ -665,7 +671,7 @@ example : ∃ (s' : Stump T) (ud : UpdateData T) (K : List T) (tg : List Pos) (h
     ud.toDestroy = [] ∧
     K.Perm (expectedUndo [T.leaf 6, .leaf 1, .leaf 3] [T.leaf 5, .leaf 6]) ∧
     Fv.canon K = some (tg, hs) ∧ tg.Pairwise Sorted.PLt ∧
-    proofUndo ⟨[((0, 5) : Pos), (1, 0), (0, 2)].map (E (Fv.modify [T.leaf 2] [T.leaf 5, .leaf 6]).rows),
+    proofUndoOld ⟨[((0, 5) : Pos), (1, 0), (0, 2)].map (E (Fv.modify [T.leaf 2] [T.leaf 5, .leaf 6]).rows),
         [T.leaf 4, .leaf 5]⟩ (BitVec.ofNat 64 [T.leaf 5, T.leaf 6].length)
         (BitVec.ofNat 64 (Fv.modify [T.leaf 2] [T.leaf 5, .leaf 6]).numLeaves)
         (encTargets Fv.rows [(0, 1)]) [T.leaf 2] [T.leaf 6, .leaf 1, .leaf 3] ud.toDestroy
@@ -688,7 +694,7 @@ example : ∃ (s' : Stump T) (ud : UpdateData T) (K : List T) (tg : List Pos) (h
 
 /-- the model, simply run: the client ends with leaf 1 at position 0 and leaf 3 at position 2 of
 the 2-row forest, with the proof `[2, 4]` — the hash of the deleted leaf 2 is re-inserted … -/
-example : proofUndo (H := T) ⟨[5#64, 8#64, 2#64], [T.leaf 4, .leaf 5]⟩ 2#64 6#64 [1#64] [T.leaf 2]
+example : proofUndoOld (H := T) ⟨[5#64, 8#64, 2#64], [T.leaf 4, .leaf 5]⟩ 2#64 6#64 [1#64] [T.leaf 2]
     [T.leaf 6, .leaf 1, .leaf 3] [] [1#64] [T.leaf 1, .node (.leaf 3) (.leaf 4)] =
     .ok (⟨[0#64, 2#64], [T.leaf 2, .leaf 4]⟩, [T.leaf 1, .leaf 3]) := by decide +kernel
 
@@ -715,7 +721,7 @@ example : verify (BitVec.ofNat 64 Fv.numLeaves) Fv.roots [T.leaf 1, .leaf 3]
 /-- level 1, `proofUndoAdd_canonical` applies to the forest after the deletion -/
 example : ∃ K tgK hsK, K.Perm (expectedUndo [T.leaf 6, .leaf 1, .leaf 3] [T.leaf 5, .leaf 6]) ∧
     (Fv.delLeaves [T.leaf 2]).canon K = some (tgK, hsK) ∧ tgK.Pairwise Sorted.PLt ∧
-    proofUndoAdd ⟨[((0, 5) : Pos), (1, 0), (0, 2)].map
+    proofUndoAddOld ⟨[((0, 5) : Pos), (1, 0), (0, 2)].map
         (E ((Fv.delLeaves [T.leaf 2]).addMany [T.leaf 5, .leaf 6]).rows), [T.leaf 4, .leaf 5]⟩
         (BitVec.ofNat 64 [T.leaf 5, T.leaf 6].length)
         (BitVec.ofNat 64 ((Fv.delLeaves [T.leaf 2]).addMany [T.leaf 5, .leaf 6]).numLeaves)
@@ -738,7 +744,7 @@ example : ∃ K tgK hsK, K.Perm (expectedUndo [T.leaf 6, .leaf 1, .leaf 3] [T.le
 
 /-- the model of level 1, simply run: leaf 6 (added) is dropped, the positions are re-encoded for
 2 rows: leaf 3 at `(0,2) = 2`, leaf 1 at `(1,0) = 4`, proof `[4]` -/
-example : proofUndoAdd (H := T) ⟨[5#64, 8#64, 2#64], [T.leaf 4, .leaf 5]⟩ 2#64 6#64
+example : proofUndoAddOld (H := T) ⟨[5#64, 8#64, 2#64], [T.leaf 4, .leaf 5]⟩ 2#64 6#64
     [T.leaf 6, .leaf 1, .leaf 3] [] = .ok (⟨[2#64, 4#64], [T.leaf 4]⟩, [T.leaf 3, .leaf 1]) := by
   decide +kernel
 
@@ -769,7 +775,7 @@ example : ∃ (ud : UpdateData T) (p' : CProof T) (C' : List T),
     (ud.toDestroy = [] →
       ∃ K tg hs, K.Perm ([T.leaf 1, T.leaf 3].filter (fun x => decide (x ∉ [T.leaf 2]))) ∧
         Fv.canon K = some (tg, hs) ∧ tg.Pairwise Sorted.PLt ∧
-        proofUndo p' (BitVec.ofNat 64 [T.leaf 5, T.leaf 6].length)
+        proofUndoOld p' (BitVec.ofNat 64 [T.leaf 5, T.leaf 6].length)
             (BitVec.ofNat 64 (Fv.modify [T.leaf 2] [T.leaf 5, .leaf 6]).numLeaves)
             (encTargets Fv.rows [(0, 1)]) [T.leaf 2] C' ud.toDestroy
             (encTargets Fv.rows [(0, 1)]) [T.leaf 1, .node (.leaf 3) (.leaf 4)] =
@@ -796,7 +802,7 @@ example : ∃ (tgD : List Pos) (hsD : List T) (ud : UpdateData T) (p' : CProof T
           (fun x => decide (x ∉ [T.leaf 1, T.leaf 4]))) ∧
         (run Forest.empty ((C07.Example.histR.take 2).map C07.toBlock)).canon K = some (tg, hs) ∧
         tg.Pairwise Sorted.PLt ∧
-        proofUndo p' (BitVec.ofNat 64 [T.leaf 6].length)
+        proofUndoOld p' (BitVec.ofNat 64 [T.leaf 6].length)
             (BitVec.ofNat 64 (run Forest.empty ((C07.Example.histR.take 2 ++
               [([T.leaf 1, .leaf 4], [T.leaf 6], [])]).map C07.toBlock)).numLeaves)
             (encTargets (run Forest.empty ((C07.Example.histR.take 2).map C07.toBlock)).rows tgD)
@@ -823,7 +829,7 @@ example : ∃ (tgD : List Pos) (hsD : List T) (ud : UpdateData T) (p' : CProof T
 the third block it holds 5 and 2; undoing the third block (`ToDestroy = ∅`) it holds 2 and 5 again
 (leaf 4, deleted by the block, is not restored — as documented) with their canonical proof in the
 5-slot accumulator `[1, 2, dead, 4, 5]` -/
-example : proofUndo (H := T) ⟨[4#64, 12#64], [T.leaf 6]⟩ 1#64 6#64 [0#64, 9#64] [T.leaf 1, .leaf 4]
+example : proofUndoOld (H := T) ⟨[4#64, 12#64], [T.leaf 6]⟩ 1#64 6#64 [0#64, 9#64] [T.leaf 1, .leaf 4]
     [T.leaf 5, .leaf 2] [] [0#64, 9#64] [T.leaf 2] =
     .ok (⟨[1#64, 4#64], [T.leaf 1, .leaf 4]⟩, [T.leaf 2, .leaf 5]) := by decide +kernel
 
